@@ -75,6 +75,10 @@ def _parser(db, chk, enc_rule="C01.R6-encode-agreement", full=True):
         chk.ob("C01.R1-row-set", "every path of the JSON back end returns (meta, frame, table)", None, where, found=f"{len(ok_runs)}/{len(runs)}")
         return
     B = ("records", T.P("EVENTS"), ())
+    # (a path on which the file holds no event list hands back an EMPTY frame - pd.DataFrame() - : nothing to be faithful to; the paths that build the frame from the events are judged)
+    _empty = lambda f_: isinstance(f_.base, tuple) and len(f_.base) == 3 and f_.base[0] == "records" and f_.base[1] == T.C(None) and f_.rows == T.TRUE and not f_.cols
+    if any(not _empty(r.ret.items[1]) for r in ok_runs):
+        ok_runs = [r for r in ok_runs if not _empty(r.ret.items[1])]
     seen_rows, seen_idx, seen_cat, seen_stream, seen_tab = {}, {}, {}, {}, {}
     for r in ok_runs:
         f = r.ret.items[1]
@@ -95,7 +99,7 @@ def _parser(db, chk, enc_rule="C01.R6-encode-agreement", full=True):
         nn = [c for c in conj if c[0] == "notnull"]
         dur_terms = [c[1] for c in nn if c[1] != T.col(B, "cat")]
         ok_nn = ("notnull", T.col(B, "cat")) in conj and len(nn) == 2 and len(dur_terms) == 1 and \
-            dur_terms[0] in (T.col(B, "dur"), T.sub(("floor", T.add(T.col(B, "ts"), T.col(B, "dur"))), ("ceil", T.col(B, "ts"))))
+            T.strip_casts(dur_terms[0], only_full_width=False) in (T.col(B, "dur"), T.sub(("floor", T.add(T.col(B, "ts"), T.col(B, "dur"))), ("ceil", T.col(B, "ts"))))
         rest = [c for c in conj if c not in nn]
         TRACE = T.cmp("==", T.col(B, "cat"), T.C("Trace"))
         ok_tr = False
